@@ -70,8 +70,8 @@ def run(chk: Check, model):
     # smoothing
     sm = S("solver.evolution_smoothing")
     el_s = T.mk_index(S("samples"), elite)
-    for fld, fn in (("mean", "jax.numpy.mean"), ("stdev", "jax.numpy.std")):
-        want = T.add(T.mul(sm, S(f"state.{fld}")), T.mul(T.sub(T.ONE, sm), T.mk_call(fn, [el_s], [("axis", T.ZERO)])))
+    for fld, fn in (("mean", "mean"), ("stdev", "std")):
+        want = T.add(T.mul(sm, S(f"state.{fld}")), T.mul(T.sub(T.ONE, sm), T.mk_reduce(el_s, fn, [("axis", T.ZERO)])))
         chk.add("C18.best", f"{fld}: smoothing * old + (1 - smoothing) * elite statistic", f.get(fld) == want, f"{fld} = {T.show(f.get(fld, T.NONE))[:200]}", chk.loc(fi))
     fi0 = model.func("cem.CEMSolver.init_state")
     r0 = SymEval(model).run_function(fi0)
